@@ -50,6 +50,25 @@ func init() {
 	// writes and truncations at every block / indirection boundary (the C02 offset alphabet), fsck as the oracle
 	RegisterSeq("c04.off", &SeqSpec{Prop: "C04", DiskSize: 6000, Setup: []fsx.Op{{K: "CREATE", H: "root", N: "f"}}, Alphabet: offAlphabet(), After: c04After,
 		Key: func(w *World) string { w.Probe = offProbe(); return w.defaultKey() }})
+	// a directory of 40 names of the maximal length (five blocks), whose name cache is rebuilt after restarts, evictions and aborts
+	pad := func(n string) string {
+		for len(n) < 112 {
+			n += "_"
+		}
+		return n
+	}
+	RegisterSeq("c04.longnames", &SeqSpec{Prop: "C04", DiskSize: 3000, After: c04After,
+		Setup: []fsx.Op{{K: "MKDIR", H: "root", N: "d"}, {K: "CREATEMANY", H: "root/d", N: "L", Cnt: 40, Len: 112}},
+		Alphabet: []fsx.Op{{K: "RESTART"}, {K: "CREATE", H: "root/d", N: pad("L039")}, {K: "CREATE", H: "root/d", N: pad("L000")}, {K: "MKDIR", H: "root/d", N: pad("L020")},
+			{K: "REMOVE", H: "root/d", N: pad("L039")}, {K: "REMOVE", H: "root/d", N: pad("L017")}, {K: "RENAME", H: "root/d", N: pad("L001"), H2: "root/d", N2: pad("L038")},
+			{K: "CREATE", H: "root/d", N: pad("new")}, {K: "CREATE", H: "root/d", N: nameOfLen(200, 'q')}, {K: "REMOVETHIRD", H: "root/d"}}})
+	// nested directories: the parents' link counts are in no reply; a wrong one shows when the parent itself is removed
+	// (its inode stays in use without a name) - possibly only after the cached inode was dropped by a restart
+	RegisterSeq("c04.dirs", &SeqSpec{Prop: "C04", DiskSize: 3000, After: c04After,
+		Setup: []fsx.Op{{K: "MKDIR", H: "root", N: "d"}, {K: "MKDIR", H: "root/d", N: "sub"}, {K: "MKDIR", H: "root", N: "e"}},
+		Alphabet: []fsx.Op{{K: "RESTART"}, {K: "RMDIR", H: "root/d", N: "sub"}, {K: "REMOVE", H: "root/d", N: "sub"}, {K: "RMDIR", H: "root/d", N: "sub2"},
+			{K: "RMDIR", H: "root", N: "d"}, {K: "REMOVE", H: "root", N: "d"}, {K: "RMDIR", H: "root", N: "e"}, {K: "MKDIR", H: "root/d", N: "sub2"}, {K: "MKDIR", H: "root/e", N: "g"},
+			{K: "RENAME", H: "root/d", N: "sub", H2: "root/d", N2: "sub2"}, {K: "RENAME", H: "root", N: "e", H2: "root", N2: "d"}, {K: "MKDIR", H: "root/d", N: nameOfLen(200, 'q')}, {K: "CREATE", H: "root/d", N: "f"}, {K: "REMOVE", H: "root/d", N: "f"}}})
 	RegisterSeq("c04.seq", &SeqSpec{Prop: "C04", DiskSize: 3000, Alphabet: c04Alphabet(), After: c04After,
 		Key: func(w *World) string { w.Probe = crashProbe; return w.defaultKey() }})
 }
@@ -64,10 +83,12 @@ func C04(r *report.Report, tier string) {
 		depth, cdepth, bound, cap = 5, 3, 2, 1024
 	}
 	r.Only = map[string]bool{"C04": true}
-	r.Rule = fmt.Sprintf("independent fsck (pointers in the data region, no block with two owners, owned => marked, inode bitmap <=> kind, tree rooted at the root with every in-use inode reached exactly once, unique well-formed names, . and .. right, no block beyond size/ShrinkSize) on the log-aware logical disk (i) in every state of a breadth-first search to depth %d over a %d-symbol alphabet incl. directory renames between parents, rename into itself, REMOVE/SETATTR on directories, big-file frees and multi-block directories reduced to one survivor in a chosen slot, and of a second search over writes/truncations at every block and indirection boundary up to the maximum file size, (ii) in the final state of every schedule (<=%d deviations) of the C03 harnesses, (iii) on the logical disk (home blocks + recovered log, decoded independently) of every crash image of all depth-<=%d crash histories incl. images cut while a 600-block file is being freed in the background", depth, len(c04Alphabet()), bound, cdepth)
+	r.Rule = fmt.Sprintf("independent fsck (pointers in the data region, no block with two owners, owned => marked, inode bitmap <=> kind, tree rooted at the root with every in-use inode reached exactly once, unique well-formed names, . and .. right, no block beyond size/ShrinkSize) on the log-aware logical disk (i) in every state of a breadth-first search to depth %d over a %d-symbol alphabet incl. directory renames between parents, rename into itself, REMOVE/SETATTR on directories, big-file frees and multi-block directories reduced to one survivor in a chosen slot, of a second search over writes/truncations at every block and indirection boundary up to the maximum file size, and of a third from a directory of 40 names of the maximal length (restarts, creations of existing names, removals, renames), and of a fourth from nested directories (removals with RMDIR and REMOVE, renames of directories over directories, restarts in between), (ii) in the final state of every schedule (<=%d deviations) of the C03 harnesses, (iii) on the logical disk (home blocks + recovered log, decoded independently) of every crash image of all depth-<=%d crash histories incl. images cut while a 600-block file is being freed in the background", depth, len(c04Alphabet()), bound, cdepth)
 	s1 := RunSeq(r, "c04.seq", depth)
 	s2 := RunSeq(r, "c04.off", offDepth)
-	r.Extra["searches"] = []*SeqSummary{s1, s2}
+	s3 := RunSeq(r, "c04.longnames", depth-1)
+	s4 := RunSeq(r, "c04.dirs", depth)
+	r.Extra["searches"] = []*SeqSummary{s1, s2, s3, s4}
 	var jobs []crashArg
 	// images cut between the background transactions that free a 530-block file
 	maxImg := 200
